@@ -16,6 +16,8 @@ class G:
         self.max_depth = max_depth
         self.n = 0
 
+    paren_query = False      # C05 / C02: a whole query in parentheses followed by ORDER BY / LIMIT
+    accessors = False        # C18 / C09: also generate member access after a call or a parenthesis
     locking = True           # C03: FOR UPDATE / FOR SHARE is outside the formatter-supported fragment
     mark_as = False          # C09: emit the optional AS as a marker so that both spellings can be produced from one statement
 
@@ -72,6 +74,9 @@ class G:
             args = ", ".join(self.expr(d - 1) for _ in range(k))
             if f in ("sum", "max") and k == 1 and r.random() < 0.3:
                 args = "distinct " + args
+            if self.accessors and r.random() < 0.25:
+                # member access on the result of a call or of a parenthesised expression (suffix operators of the expression grammar)
+                return r.choice(["%s(%s).%s" % (f, args, self.ident("m")), "(%s).%s" % (self.atom(), self.ident("m"))])
             return "%s(%s)" % (f, args)
         if x < 0.78:
             n = r.randint(1, 2)
@@ -186,6 +191,9 @@ class G:
 
     def query(self, d=1, setop=True):
         r = self.r
+        if self.paren_query and d > 0 and r.random() < 0.06:
+            # a parenthesised query followed by its own tail
+            return "(%s)%s" % (self.simple(d), self.tail() or " limit 3")
         if setop and r.random() < 0.3:
             n = r.randint(2, 4)
             parts = []
